@@ -1,6 +1,7 @@
 import SF.Props.C02
 import SF.Props.C03
 import SF.Props.C04
+import SF.Props.C06
 /-
   C16 — Floating-point results track the exact result: no drift, no stale residue.
 
@@ -90,4 +91,66 @@ geometrically, C09); what is exact is the recursion itself -/
 theorem ema_exact (N : Nat) (hN : 0 < N) (alpha : α) (xs : List α) :
     (emaCore (α := α) N alpha).outAfter xs = .ok (Spec.ema N alpha xs) := C04.ema_eq N hN alpha xs
 
+/-- Min and Max of a flat window are the value -/
+theorem min_max_flat (N : Nat) (hN : 0 < N) (p : List α) (c : α) (k : Nat) (hk : N ≤ k) :
+    Spec.wmin N (p ++ List.replicate k c) = some c ∧ Spec.wmax N (p ++ List.replicate k c) = some c := by
+  simp only [Spec.wmin, Spec.wmax, lastN_flat N p c k hk]
+  have hr : c ∈ List.replicate N c := by simp; omega
+  constructor
+  · exact MinMax.minL_eq_of_least _ _ ⟨hr, fun x hx => by rw [List.eq_of_mem_replicate hx]⟩
+  · exact MinMax.maxL_eq_of_greatest _ _ ⟨hr, fun x hx => by rw [List.eq_of_mem_replicate hx]⟩
+
+/-- HLNormalizer reports 0 on a flat window (max = min) -/
+theorem hln_flat (N : Nat) (hN : 0 < N) (p : List α) (c : α) (k : Nat) (hk : N ≤ k) :
+    Spec.hln N (p ++ List.replicate k c) = some 0 := by
+  obtain ⟨h1, h2⟩ := min_max_flat N hN p c k hk
+  simp only [Spec.wmin, Spec.wmax] at h1 h2
+  have hk0 : 0 < k := by omega
+  have hlast : (p ++ List.replicate k c).getLast? = some c := by
+    obtain ⟨k', rfl⟩ : ∃ k', k = k' + 1 := ⟨k - 1, by omega⟩
+    rw [List.replicate_succ', ← List.append_assoc]; simp
+  simp [Spec.hln, h1, h2, hlast]
+
+/-- Cumulative reports N·c on a flat window -/
+theorem cumulative_flat (N : Nat) (hN : 0 < N) (p : List α) (c : α) (k : Nat) (hk : N ≤ k) :
+    Spec.cumulative N (p ++ List.replicate k c) = some ((N : α) * c) := by
+  have hne : (p ++ List.replicate k c).isEmpty = false := by
+    cases p with
+    | nil => cases k with
+      | zero => omega
+      | succ k => simp [List.replicate_succ]
+    | cons a r => rfl
+  simp only [Spec.cumulative, hne, Bool.false_eq_true, if_false, lastN_flat N p c k hk, sumL_const]
+
+/-- NET reports 0 on a flat window (every pair is a tie), N ≥ 2 -/
+theorem kendallNum_flat (n : Nat) (c : α) : kendallNum (List.replicate n c) = 0 := by
+  induction n with
+  | zero => simp [kendallNum]
+  | succ n ih =>
+    simp only [List.replicate_succ, kendallNum, ih, add_zero, List.map_replicate, sub_self]
+    simp [Spec.sgn0, sumL_const]
+
+theorem net_flat (N : Nat) (hN : 2 ≤ N) (p : List α) (c : α) (k : Nat) (hk : N ≤ k) :
+    Spec.net N (p ++ List.replicate k c) = some 0 := by
+  simp only [Spec.net, lastN_flat N p c k hk, List.length_replicate]
+  rw [if_neg (by omega)]
+  simp [Spec.kendall, kendallNum_flat]
+
 end SF.C16
+
+namespace SF.C16.Real
+open SF SF.Spec
+/-- CTI reports 0 on a flat window (its variance term is 0) -/
+theorem cti_flat (N : Nat) (hN : 0 < N) (p : List ℝ) (c : ℝ) (k : Nat) (hk : N ≤ k) :
+    Spec.cti N (p ++ List.replicate k c) = some 0 := by
+  have hl : ¬ (p ++ List.replicate k c).length < N := by simp; omega
+  simp only [Spec.cti, hl, if_false, C16.lastN_flat N p c k hk]
+  congr 1
+  rw [Inv2.pearson_eq_pearF]
+  simp only [List.length_replicate, List.map_replicate, sumL_const]
+  unfold Inv2.pearF
+  rw [if_neg]
+  intro h
+  have : (N : ℝ) * ((N : ℝ) * (c * c)) - (N : ℝ) * c * ((N : ℝ) * c) = 0 := by ring
+  linarith [h.1]
+end SF.C16.Real
